@@ -150,4 +150,23 @@ def cases(ctx):
         out.append(Case(f"print {name} {wire.s(''.join(items))} {' '.join(args)}".rstrip(), ("print-family",)))
     for name in ["print", "println", "eprint", "eprintln"]:
         out.append(Case(f"print {name} {wire.i(5)}", ("print-family",)))
+    # padded doubles: the text of a double is Rust's (not modelled), but its padding is documented — "others on the
+    # right unless < or > is given" — so the padded forms are judged against the implementation's own unpadded text
+    for f in [1.5, 3.25, -0.5, 100.0, 1e21, 0.1, 2.5e-7, -1234.5678]:
+        fmt = "{}|{:8}|{:<8}|{:>8}|{:*<9}|{:#>10}|{:2}|{0:12}"
+        out.append(Case(f"builtin format {wire.s(fmt)} " + " ".join([wire.d(f)] * 7), ("float-padding",)))
     return out
+
+
+def judge(c):
+    if "float-padding" not in c.tags:
+        return None
+    t = c.impl.split(" ")
+    if len(t) < 2 or t[0] != "ok" or not t[1].startswith("s:"):
+        return False
+    parts = bytes.fromhex(t[1][2:]).decode("utf-8").split("|")
+    if len(parts) != 8:
+        return False
+    x = parts[0]
+    want = [x, x.ljust(8), x.ljust(8), x.rjust(8), x.ljust(9, "*"), x.rjust(10, "#"), x.ljust(2), x.ljust(12)]
+    return parts == want
